@@ -9,7 +9,7 @@ DeleteSheet / SetSheetVisible / SetSheetName / MoveSheet, the template workbook)
 `Facts.MaxSheetNameLength`.  `ops` ranges over ALL finite histories of API calls,
 including rejected ones; `run init ops` is the state after the history on a `NewFile`.
 -/
-import XlModel.Lemmas.Sheets7
+import XlModel.Lemmas.Sheets8
 
 namespace XlModel.Props.C16
 open XlModel XlModel.Sheets
@@ -29,7 +29,7 @@ theorem facts_ok :
       Facts.C16.deleteKeepsVisible && Facts.C16.hideCountsVisibleOthers &&
       Facts.C16.moveRenumbersLocalSheetId && Facts.C16.deleteAdjustsDefinedNames &&
       Facts.C16.copyTargetByPartPath && Facts.C16.newSheetSkipsExistingParts &&
-      Facts.C16.definedNameScopeResolved) = true ∧ Facts.C16.workbookScopeName = "Workbook" := by
+      Facts.C16.definedNameScopeResolved && Facts.C16.deleteDefinedNameByScope) = true ∧ Facts.C16.workbookScopeName = "Workbook" := by
   decide
 
 /-! ## invariants over any history (clauses "names stay unique case-insensitively and valid",
@@ -90,6 +90,31 @@ theorem parts_bijective_partial (ops : List Op) :
   obtain ⟨hi, hp⟩ := consistent_any_history ops
   exact ⟨fun sh h => ⟨hp.rel_ok sh h, hp.map_ok sh h, hp.part_ok sh h, hp.id_pos sh h⟩,
     hi.uniq_id, hp.rid_nodup, hp.map_keys⟩
+
+/-- `parts_bijective`, both directions: after any history the listed sheets, the workbook's worksheet
+relationships, the `sheetMap`, the decoded worksheets and the worksheet overrides of
+[Content_Types].xml correspond one-to-one, and the package store holds worksheet parts of listed
+sheets only.  Sheets → parts is `parts_bijective_partial`; here the converse (no orphans): every
+decoded worksheet, every override, every worksheet relationship (with its rId) and every stored
+part belongs to a listed sheet; overrides and rIds are duplicate-free and every listed sheet has its
+override. -/
+theorem parts_bijective (ops : List Op) :
+    let s := run init ops
+    (∀ sh ∈ s.sheets, s.rels.find? (fun r => r.rid == sh.rid) = some ⟨sh.rid, sh.id⟩ ∧
+      getSheetXMLPath s sh.name = some sh.id ∧ (partGet? s.parts sh.id).isSome = true ∧ sh.id ∈ s.ctypes) ∧
+    (s.sheets.map (·.id)).Nodup ∧ (s.sheets.map (·.rid)).Nodup ∧
+    (∀ e ∈ s.sheetMap, ∃ sh ∈ s.sheets, sh.name = e.1) ∧
+    (∀ q, (partGet? s.parts q).isSome = true → q ∈ s.sheets.map (·.id)) ∧
+    (∀ p ∈ s.ctypes, p ∈ s.sheets.map (·.id)) ∧ s.ctypes.Nodup ∧
+    (∀ r ∈ s.rels, r.part ≠ 0 → (r.rid, r.part) ∈ s.sheets.map (fun sh => (sh.rid, sh.id))) ∧
+    (s.rels.map (·.rid)).Nodup ∧
+    (∀ p ∈ s.pkg, p ∈ s.sheets.map (·.id)) ∧ s.pkg.Nodup := by
+  intro s
+  obtain ⟨hi, hp, hn⟩ := run_all init ops init_inv init_pb init_no
+  exact ⟨fun sh h => ⟨hp.rel_ok sh h, hp.map_ok sh h, hp.part_ok sh h,
+      hn.ct_sup _ (List.mem_map.mpr ⟨sh, h, rfl⟩)⟩,
+    hi.uniq_id, hp.rid_nodup, hp.map_keys, hn.parts_sub, hn.ct_sub, hn.ct_nodup, hn.rel_sub, hn.rel_nodup,
+    hn.pkg_sub, hn.pkg_sorted.imp (fun h => Nat.ne_of_lt h)⟩
 
 /-- after any history, whatever is called next never ends in the model's `gap` outcome (a state the
 transcription cannot follow: map-order dependence, missing decoded part) nor in `panic` (the nil
@@ -152,8 +177,9 @@ theorem sheets_refine_list_step (ops : List Op) (op : Op) :
   exact (sim_step _ op hi hp).symm
 
 /-- the call is accepted by the implementation model exactly when the list model accepts it
-(SetDefinedName is outside the list model) -/
-theorem sheets_refine_list_accept (ops : List Op) (op : Op) (hop : ∀ k sc, op ≠ .defname k sc) :
+(SetDefinedName / DeleteDefinedName are outside the list model) -/
+theorem sheets_refine_list_accept (ops : List Op) (op : Op)
+    (hop : ∀ k sc, op ≠ .defname k sc ∧ op ≠ .deldef k sc) :
     (Spec.step (view (run init ops)) op).2 = (step (run init ops) op).2.isNone := by
   obtain ⟨hi, hp⟩ := consistent_any_history ops
   exact sim_accept _ op hi hp hop
